@@ -885,3 +885,11 @@ val moments : arr -> z -> z -> z -> z -> z
 val gbernsen_px : q -> q -> q -> q -> q -> bool
 
 val soft_threshold_px : q -> q -> q
+
+val uf_find : nat -> z list -> z -> z list * z
+
+val uf_join : nat -> z list -> z -> z -> z list
+
+val uf_classes : arr -> arr -> z list
+
+val uf_label : arr -> arr -> z list * z
